@@ -29,6 +29,20 @@ fn image_for(index: u64, wt: &mut Tape) -> (String, Vec<u8>) {
         let (n, b) = CORPUS[index as usize];
         return (format!("corpus:{}", n), b.to_vec());
     }
+    if wt.chance(1, 12) {
+        // one long string (up to the longest payload a record can carry): growth on re-encoding has nowhere to go
+        let len = *wt.pick(&[21_000usize, 22_000, 30_000, 43_690, 65_530]);
+        let mut n = gdsref::NLib { version: 5, dates: [0; 12], name: b"long".to_vec(), units: (1e-3f64.to_bits(), 1e-9f64.to_bits()), structs: vec![], extras: vec![] };
+        let mut e = gdsref::NElem::new(gdsref::NKind::Text);
+        e.layer = Some(1);
+        e.xtype = Some(0);
+        e.xy = vec![0, 0];
+        e.string = Some(vec![b'a'; len]);
+        n.structs.push(gdsref::NStruct { dates: [0; 12], name: b"s".to_vec(), elems: vec![e] });
+        if let Ok(v) = gdsref::encode(&n) {
+            return (format!("r-gds:one-{}-byte-string", len), v);
+        }
+    }
     for _ in 0..8 {
         if wt.chance(1, 2) {
             let (lib, _) = gen_lib(wt, StrProfile::Gds);
@@ -76,6 +90,8 @@ pub enum Damage {
     /// insert a foreign record (from another image) before record r
     Foreign(usize, Vec<u8>),
     /// overwrite k bytes at offset
+    /// overwrite the whole payload of record r with one byte value (e.g. invalid UTF-8 in a string)
+    FillPayload(usize, u8),
     Noise(Vec<(usize, u8)>),
     Random(Vec<u8>),
     PrefixPlusRandom(usize, Vec<u8>),
@@ -145,6 +161,13 @@ pub fn apply(img: &[u8], recs: &[Rec], d: &Damage) -> Vec<u8> {
             v.extend_from_slice(&img[recs[*r].at..]);
             v
         }
+        Damage::FillPayload(r, b) => {
+            let mut v = img.to_vec();
+            for x in &mut v[recs[*r].at + 4..end_of(*r)] {
+                *x = *b;
+            }
+            v
+        }
         Damage::Noise(edits) => {
             let mut v = img.to_vec();
             for (o, b) in edits {
@@ -181,6 +204,11 @@ fn record_faults(recs: &[Rec], r: usize, foreign: &[Vec<u8>], full_types: bool) 
     for x in [0u8, 1, 2, 3, 4, 5, 6, 7, 0xFF] {
         if x != recs[r].dt {
             v.push(Damage::Dtype(r, x));
+        }
+    }
+    if !recs[r].payload.is_empty() {
+        for b in [0xFFu8, 0x80, 0xC3, 0x00] {
+            v.push(Damage::FillPayload(r, b));
         }
     }
     v.push(Damage::Delete(r));
@@ -319,7 +347,7 @@ impl Check for C10 {
         false
     }
     fn rule(&self) -> String {
-        "One run = one valid image (runs 0..2: the repository's non-empty .gds files; others: real-writer output of a G-gds library or an R-gds encoding, <= 64 KiB) and, on it: crash-truncation at EVERY byte offset (quick tier: every offset for images <= 2 KiB, 96 seeded offsets plus all record boundaries +-1 otherwise), EVERY single-record fault for every record (length field := 0/2/3/4/5/len-1/len-2/len+1/len+2/len+4/0xFFFE/0xFFFF, zero-length payload, record type := every number 0..0x3C and 0x3D/0x7F/0x80/0xFF (quick: 19 representative ones), data type := 0..7 and 0xFF, record deleted, duplicated, swapped with its neighbour, spliced from elsewhere in the image and from another image; quick tier on large images: a seeded 1/8 sample of records), plus seeded noise (1..32 byte overwrites, pure random strings, valid prefix + random tail); one scale run reads a 2-9 MB valid image (the sample struct repeated 100-400 times), three cuts of it and a bit flip, under the same step budget. Every case is read by from_bytes; 1 case in 4 (all cases of small images) also by open through a counting SimSource under a benign schedule. evaluations counts cases; non-trivial = damaged image differs from the valid one; distinct = distinct damaged-image digests.".into()
+        "One run = one valid image (runs 0..2: the repository's non-empty .gds files; others: real-writer output of a G-gds library or an R-gds encoding, <= 64 KiB) and, on it: crash-truncation at EVERY byte offset (quick tier: every offset for images <= 2 KiB, 96 seeded offsets plus all record boundaries +-1 otherwise), EVERY single-record fault for every record (length field := 0/2/3/4/5/len-1/len-2/len+1/len+2/len+4/0xFFFE/0xFFFF, zero-length payload, payload filled with 0xFF/0x80/0xC3/0x00, record type := every number 0..0x3C and 0x3D/0x7F/0x80/0xFF (quick: 19 representative ones), data type := 0..7 and 0xFF, record deleted, duplicated, swapped with its neighbour, spliced from elsewhere in the image and from another image; quick tier on large images: a seeded 1/8 sample of records), plus seeded noise (1..32 byte overwrites, pure random strings, valid prefix + random tail); one scale run reads a 2-9 MB valid image (the sample struct repeated 100-400 times), three cuts of it and a bit flip, under the same step budget. Every case is read by from_bytes; 1 case in 4 (all cases of small images) also by open through a counting SimSource under a benign schedule. evaluations counts cases; non-trivial = damaged image differs from the valid one; distinct = distinct damaged-image digests.".into()
     }
     fn assumptions(&self) -> Vec<String> {
         vec![
@@ -503,6 +531,7 @@ impl Check for C10 {
             match d {
                 Damage::Truncate(_) => out.probes.hit("case_truncation"),
                 Damage::Len(..) | Damage::EmptyPayload(_) => out.probes.hit("case_length_field"),
+                Damage::FillPayload(..) => out.probes.hit("case_payload_filled"),
                 Damage::Rtype(..) => out.probes.hit("case_record_type"),
                 Damage::Dtype(..) => out.probes.hit("case_data_type"),
                 Damage::Delete(_) => out.probes.hit("case_record_deleted"),
